@@ -516,7 +516,7 @@ class Sim:
             self.rec("skipped", me.idx, k, fnk, "no-such-callable:%s" % type(e).__name__)
             return
         try:
-            args = [O.resolve_arg(a, self.regs) for a in op.get("args", ())]
+            args = [O.resolve_arg(a, self.regs, self.dead_ids) for a in op.get("args", ())]
             kwargs = {kk: O.resolve_arg(a, self.regs) for kk, a in (op.get("kw") or {}).items()}
         except O.Missing as e:
             self.rec("skipped", me.idx, k, fnk, "missing:%s" % e)
@@ -586,6 +586,12 @@ class Sim:
                     self.reg_digest[out] = C.digest(C.canon(self.regs[out]))
                 except C.Unbuildable:
                     pass
+        # containers the caller built for this call die when this frame returns
+        for a, sp in zip(args, op.get("args", ())):
+            if ("tuple" in sp or "list" in sp) and len(self.dead_ids) < 4096:
+                if id(a) in self.dead_ids:
+                    self.stats["identity_reuse"] = self.stats.get("identity_reuse", 0) + 1
+                self.dead_ids.add(id(a))
         od = C.digest(outcome)
         oc = outcome if len(C.cjson(outcome)) < 6000 else [outcome[0], ["big"]]
         self.rec("return", me.idx, k, fnk, od, n, bool(me.faulted), oc)
